@@ -499,3 +499,20 @@ def provide (cfg : Cfg) : Nat → Ty → Ty → Answer
 def getConverter (cfg : Cfg) (fuel : Nat) (src dst : Ty) : Answer := provide cfg fuel src dst
 
 end Adaptix.Conv
+
+namespace Adaptix.Conv
+
+/-- observable summary of an answer (used by the driver and by `decide`d examples) -/
+def Answer.kind? : Answer → Option Kind
+  | .ok c => some c.kind
+  | _ => none
+
+def Answer.isNotFound : Answer → Bool
+  | .notFound => true
+  | _ => false
+
+def Answer.run? : Answer → Val → Option Val
+  | .ok c, v => c.run v
+  | _, _ => none
+
+end Adaptix.Conv
